@@ -1,5 +1,7 @@
 """Driver configuration and manifest text for C04 (see DESIGN.md)."""
 
+RULE_ADD = ' Later additions: any protocol error code for fatal faults; every clause of the oracle is judged (one failure per symptom is handed on).'
+
 CHECK = {'pkg': '.',
  'sim': True,
  'parts': [{'name': 'main', 'test': 'TestVF_C04', 'quick': {'shards': 8, 'checks': 200}, 'thorough': {'shards': 16, 'checks': 12000}}],
